@@ -51,6 +51,11 @@ beh("f01_file_remove", ["C01"], [A("k1", "e1", "n1"), F("k1", "e1", "n1"), R("k1
 for regw in ("none", "W1"):
     beh("f01_storage_wrapper_as_regw_" + regw, ["C01"], [W(regw), F("k1", "e1", "n1", ww="SW", wk="k1", wn="n1"), F("k2", "e2", "n2", ww="SW", wk="k2", wn="n2"), A("k1", "e1", "n1"), F("k1", "e1", "n1", ww="SW", wk="k1", wn="n1")], sw=True)
 beh("f06_skip_storage", ["C06", "C01"], [T("t1", "s1"), dict(F("k1", "e1", "t1"), skipst=True), F("k2", "e1", "t1"), F("k1", "e1", "t1"), T("t2"), dict(F("k3", "e2", "t2"), skipst=True), dict(F("k2", "e2", "t2"), skipst=True)])
+# the nonce (and its signature) of an accepted request presented again with another state / another state signature / after removal
+for nidl in (True, False):
+    beh("f05_reused_nonce" + ("n" if nidl else ""), ["C05"], [A("k1", "e1", "n1"), NID("k1"), G("k1", "k1", hasState=True, ssig="k1"), dict(G("k1", "k1", hasState=True, ssig="kx"), reuse=True),
+                                                         dict(G("k1", "k1", hasState=True, ssig="none"), reuse=True), dict(G("k1", "k1"), reuse=True), R("k1"), dict(G("k1", "k1"), reuse=True),
+                                                         A("k2", "e1", "n2"), NID("k2"), G("k2", "k2", "N1"), dict(G("k2", "k2", "N1", hasState=True, ssig="kx"), reuse=True)], nidl=nidl)
 def FR(t, ka, kb, e="e1", be="inmem"): return dict(op="FetchRace", t=t, ka=ka, kb=kb, e=e, be=be)
 # overlapping fetches presenting the same token: known finding KF-C06-1 on the in-memory back end; the file back end refuses the loser
 beh("kf_c06_race", ["C06", "C01"], [T("t1", "s1"), FR("t1", "k1", "k2"), F("k3", "e1", "t1"), T("t2"), FR("t2", "k3", "k1"), FR("t2", "k3", "k2")])
